@@ -92,7 +92,13 @@ func newNFA(P *Program) *nfa {
 }
 
 func inAnsi(fn *ssa.Function) bool {
-	return fn != nil && fn.Pkg != nil && fn.Pkg.Pkg.Path() == "servitor/ansi"
+	if fn == nil || fn.Pkg == nil {
+		return false
+	}
+	if lp, ok := logicalPkg[fn]; ok {
+		return lp == "servitor/ansi" // a function of ansi that moved to the package that uses it
+	}
+	return fn.Pkg.Pkg.Path() == "servitor/ansi"
 }
 
 func inStyleLayer(fn *ssa.Function) bool {
@@ -100,6 +106,9 @@ func inStyleLayer(fn *ssa.Function) bool {
 		return false
 	}
 	p := fn.Pkg.Pkg.Path()
+	if lp, ok := logicalPkg[fn]; ok {
+		p = lp // a function of the layer that moved to the package that uses it
+	}
 	return p == "servitor/ansi" || p == "servitor/style"
 }
 
